@@ -1,0 +1,49 @@
+//go:build verif
+
+package ardop
+
+import (
+	"bufio"
+	"fmt"
+	"io"
+)
+
+// Exports for the verification harness in /verif. Compiled only with -tags verif.
+
+// VerifCRC16 is crc16Sum.
+func VerifCRC16(b []byte) uint16 { return crc16Sum(b) }
+
+// VerifWriteCtrlFrame writes one host->TNC command frame.
+func VerifWriteCtrlFrame(isTCP bool, w io.Writer, cmd string) error {
+	return writeCtrlFrame(isTCP, w, "%s", cmd)
+}
+
+// VerifFrame is the outcome of one readFrameOfType call.
+type VerifFrame struct {
+	Cmd      string // command frame text (Kind "c")
+	DataType string // data frame type (Kind "d")
+	Data     []byte
+	Kind     string // "c", "d" or "" on error
+	Err      error
+}
+
+// VerifReadFrame reads one TNC->host frame with readFrameOfType.
+func VerifReadFrame(fType byte, rd *bufio.Reader, isTCP bool) VerifFrame {
+	f, err := readFrameOfType(fType, rd, isTCP)
+	if err != nil {
+		return VerifFrame{Err: err}
+	}
+	switch v := f.(type) {
+	case cmdFrame:
+		return VerifFrame{Kind: "c", Cmd: string(v)}
+	case dFrame:
+		return VerifFrame{Kind: "d", DataType: v.dataType, Data: v.data}
+	}
+	return VerifFrame{Err: fmt.Errorf("unknown frame %T", f)}
+}
+
+// VerifParseCtrl runs parseCtrlMsg and renders the result.
+func VerifParseCtrl(s string) (cmd string, value string) {
+	m := parseCtrlMsg(s)
+	return string(m.cmd), fmt.Sprintf("%T:%v", m.value, m.value)
+}
